@@ -228,7 +228,13 @@ def showSlot (s : Slot) : String :=
   showBool s.signer ++ showBool s.writable ++ ":" ++ (match s.key with
     | .fresh => "f" | .self => "p" | .fixed a => toHex a)
 
-def showSlots (l : List Slot) : String := if l.isEmpty then "-" else " ".intercalate (l.map showSlot)
+/-- With every optional account ABSENT the harness leaves `Program`/`Sysvar` at their defaults and
+the whole slot (flags + key kind) is compared; with every optional account PRESENT the harness has
+to pass `Some(key)` for every `Option<Pubkey>` client input — which also overrides the defaults
+(`Program<T>` and `Option<AccountInfo>` have the same client type) — so only flags are compared. -/
+def showSlots (present : Bool) (l : List Slot) : String :=
+  if l.isEmpty then "-"
+  else " ".intercalate (l.map (fun s => if present then showBool s.signer ++ showBool s.writable else showSlot s))
 
 def showCAcc (a : CAcc) : String :=
   a.name ++ ":" ++ showBool a.signer ++ showBool a.writable ++ showBool a.optional ++ ":" ++ showAddr a.address
@@ -240,6 +246,27 @@ def showLErr : LErr → String
   | .remainingDefault => "err:RemainingAccountsCannotHaveDefaults"
   | .manyNotSingle => "err:ManySetsMustBeSingle"
   | .unsupportedSet => "err:UnsupportedAccountSetType"
+
+def showPErr : PErr → String
+  | .unsupportedType => "err:UnsupportedAccountType"
+  | .set e => showLErr e
+
+def parseArgKind (s : String) : Option ArgKind :=
+  if s = "named" then some .named else if s = "empty" then some .empty
+  else if s = "tuple" then some .tuple else if s = "other" then some .other else none
+
+/-- `<s><w>:<f|p|hex>` -/
+def parseSlot (s : String) : Option Slot :=
+  match s.splitOn ":" with
+  | [fl, k] =>
+    match fl.toList with
+    | [a, b] => do
+      let sg ← parseBool (String.ofList [a])
+      let w ← parseBool (String.ofList [b])
+      let key ← if k = "f" then some KeyKind.fresh else if k = "p" then some KeyKind.self else (parseHex k).map KeyKind.fixed
+      pure ⟨sg, w, key⟩
+    | _ => none
+  | _ => none
 
 def sortedNames (ns : List String) : List String := (ns.map camel).mergeSort (fun a b => decide (a ≤ b))
 
@@ -276,23 +303,39 @@ def answer (xs : List Sexp) : String :=
     | none => "bad-op"
   | [.atom "metas", .atom _, sh, .atom prog, .atom present] =>
     match parseSetShape sh, parseHex prog, parseBool present with
-    | some s, some prog, some p => "ok " ++ showSlots (clientSlots prog p s)
+    | some s, some prog, some p => "ok " ++ showSlots p (clientSlots prog p s)
     | _, _, _ => "bad-op"
-  | [.atom "flat", .atom _, .atom _, .atom prog, .atom present, set] =>
-    match parseIdlSet set, parseHex prog, parseBool present with
-    | some s, some prog, some p => "ok " ++ showSlots (flatten prog p s)
-    | _, _, _ => "bad-op"
+  -- `flat <prog> <ix> <progid> <present> <idlset> (<client slots>)`: the REAL IDL set flattened by the
+  -- model, compared (`agreeAll` / flags) with the REAL client metas carried in the op line
+  | [.atom "flat", .atom _, .atom _, .atom prog, .atom present, set, .list client] =>
+    match parseIdlSet set, parseHex prog, parseBool present, (atoms client).bind (fun l => l.mapM parseSlot) with
+    | some s, some prog, some p, some cl =>
+      let idl := flatten prog p s
+      let same := if p then decide (flagsOf idl = flagsOf cl) else agreeAll idl cl
+      (if same then "ok " else "mismatch ") ++ showSlots p idl
+    | _, _, _, _ => "bad-op"
   -- the IDL's discriminant is the runtime constant: the model's answer is what the IDL says
   | [.atom "disc", .atom _, .atom _, .atom _, .atom h] =>
     match parseHex h with
     | some d => "ok " ++ toHex d
     | none => "bad-op"
-  | [.atom "lower", .atom _, .atom _, .atom h, set] =>
-    match parseHex h, parseIdlSet set with
-    | some d, some s =>
-      match lowerDef s with
+  | [.atom "lower", .atom _, .atom _, .atom h, .atom k, set] =>
+    match parseHex h, parseArgKind k, parseIdlSet set with
+    | some d, some k, some s =>
+      match lowerIx k s with
       | .ok (a, r) => s!"ok {toHex (unNibbles (nibbles d))} {d.length} | {showCAccs a} | {showCAccs r}"
-      | .error e => showLErr e
+      | .error e => showPErr e
+    | _, _, _ => "bad-op"
+  -- whole-program conversion: `codama <prog> (<acct kinds>) ((<argkind> <set>) ...)`
+  | [.atom "codama", .atom _, .list accts, .list ixs] =>
+    match (atoms accts).bind (fun l => l.mapM parseArgKind),
+          ixs.mapM (fun x => match x with
+            | .list [.atom k, s] => do pure ((← parseArgKind k), (← parseIdlSet s))
+            | _ => none) with
+    | some accts, some ixs =>
+      match lowerProgram accts ixs with
+      | .ok () => "ok"
+      | .error e => showPErr e
     | _, _ => "bad-op"
   | [.atom "usize", .atom h] =>
     match parseHex h with
